@@ -16,3 +16,16 @@ class NormBlock(nnx.Module):
 @onnx_function
 def silu_act(x):
     return jax.nn.silu(x) + 1.0
+
+
+@onnx_function
+def scale_by_tenth(x):
+    return x * 0.1 + 0.3
+
+import numpy as _np
+_W64 = _np.asarray([0.1, 0.2, 0.3], dtype=_np.float64)
+
+
+@onnx_function
+def add_np64_const(x):
+    return x + _W64
